@@ -5,4 +5,5 @@ import MimicProps.C08
 #print axioms MimicProps.C08.others_invisible
 #print axioms MimicProps.C08.interleaving_irrelevant
 #print axioms MimicProps.C08.driver_connections_independent
+#print axioms MimicProps.C08.driver_step_is_interleaved_step
 #print axioms MimicProps.C08.shared_state_audit
